@@ -159,3 +159,736 @@ from twisted.web.http_headers import Headers  # noqa: E402
 
 from vlib import api, rope  # noqa: E402
 from vlib.api import H, cover  # noqa: E402
+
+PROPERTY = "C29"
+LEVEL = "model_checking"
+ENCODED = ["twisted.web._http2:H2Connection._sendPrioritisedData", "twisted.web._http2:H2Connection.writeDataToStream",
+           "twisted.web._http2:H2Connection._handleWindowUpdate", "twisted.web._http2:H2Connection.endRequest",
+           "twisted.web._http2:H2Connection.abortRequest", "twisted.web._http2:H2Connection._requestDone",
+           "twisted.web._http2:H2Connection.remainingOutboundWindow", "twisted.web._http2:H2Connection.dataReceived",
+           "twisted.web._http2:H2Connection._requestReceived", "twisted.web._http2:H2Connection.pauseProducing",
+           "twisted.web._http2:H2Connection.resumeProducing", "twisted.web._http2:H2Stream.windowUpdated",
+           "twisted.web._http2:H2Stream.flowControlBlocked", "twisted.web._http2:H2Stream.write",
+           "twisted.web._http2:H2Stream.writeSequence", "twisted.web._http2:H2Stream.registerProducer",
+           "twisted.web._http2:H2Stream.requestDone", "twisted.web._http2:H2Stream.abortConnection"]
+BOUNDS = {"quick": {"ns": 2, "hist": 3, "cap": 1 << 20}, "thorough": {"ns": 3, "hist": 4, "cap": 1 << 20}}
+B = {}
+
+_SENT = _h2mod._END_STREAM_SENTINEL
+_SIDS = (1, 3, 5)
+_BASE = 1 << 23          # the body of stream number i is master[i * _BASE : ...]
+_BIG = 1 << 25           # "window opened wide" / "frame size large" in the drain phase
+_IWS = _hs.SettingCodes.INITIAL_WINDOW_SIZE
+_MFS = _hs.SettingCodes.MAX_FRAME_SIZE
+
+
+# ---- environment: fake h2 connection, reactor, transport, request, producer ---------------------------------
+
+class _FakeH2:
+    """the part of h2.connection.H2Connection's documented contract that twisted.web._http2 uses"""
+
+    def __init__(self, cw, iws, mfs):
+        self.cw = cw                # connection outbound window
+        self.iws = iws              # peer's SETTINGS_INITIAL_WINDOW_SIZE
+        self.mfs = mfs              # peer's SETTINGS_MAX_FRAME_SIZE
+        self.sw = {}                # open stream id -> outbound window (may be negative after SETTINGS)
+        self.closed = []            # closed stream ids
+        self.sent = {}              # stream id -> list of DATA payloads, in order
+        self.log = []               # ("data"|"end"|"rst"|"headers", stream id)
+        self.errors = []            # what the real h2 would have refused
+        self.pending = False
+        self.events = []
+
+    # -- queried / driven by twisted
+    def _window(self, sid):
+        if sid not in self.sw:
+            self.errors.append(("closed", sid))
+            raise _hx.StreamClosedError(sid)
+        return self.sw[sid]
+
+    def local_flow_control_window(self, sid):
+        return rope.imin(self.cw, self._window(sid))
+
+    @property
+    def max_outbound_frame_size(self):
+        return self.mfs
+
+    @property
+    def open_outbound_streams(self):
+        return 0
+
+    @property
+    def open_inbound_streams(self):
+        return len(self.sw)
+
+    def send_data(self, sid, data, end_stream=False, pad_length=None):
+        n = len(data)
+        w = self.local_flow_control_window(sid)
+        if n > 0 and n > w:
+            self.errors.append(("flow", sid))
+            raise _hx.FlowControlError("Cannot send more than the flow control window")
+        if n > self.mfs:
+            self.errors.append(("frame", sid))
+            raise _hx.FrameTooLargeError("Cannot send frame larger than the max frame size")
+        self.cw = self.cw - n
+        self.sw[sid] = self.sw[sid] - n
+        self.sent[sid].append(data)
+        self.log.append(("data", sid))
+        self.pending = True
+
+    def end_stream(self, sid):
+        self._window(sid)
+        del self.sw[sid]
+        self.closed.append(sid)
+        self.log.append(("end", sid))
+        self.pending = True
+
+    def reset_stream(self, sid, error_code=0):
+        self._window(sid)
+        del self.sw[sid]
+        self.closed.append(sid)
+        self.log.append(("rst", sid))
+        self.pending = True
+
+    def send_headers(self, stream_id, headers, end_stream=False):
+        if stream_id not in self.sw:
+            raise _hx.StreamClosedError(stream_id)
+        self.log.append(("headers", stream_id))
+        self.pending = True
+
+    def initiate_connection(self):
+        self.pending = True
+
+    def close_connection(self, error_code=0, additional_data=None, last_stream_id=None):
+        self.pending = True
+
+    def acknowledge_received_data(self, n, sid):
+        pass
+
+    def data_to_send(self, amount=None):
+        if self.pending:
+            self.pending = False
+            return b"\x00"
+        return b""
+
+    def receive_data(self, data):
+        evs = self.events
+        self.events = []
+        return evs
+
+    # -- the peer (harness side): state change exactly as h2 applies it, plus the event h2 emits
+    def peer_request(self, sid):
+        self.sw[sid] = self.iws
+        self.sent[sid] = []
+        self.events.append(_ev.RequestReceived(stream_id=sid, headers=[(b":method", b"GET"), (b":path", b"/"),
+                                                                         (b":authority", b"h")]))
+
+    def peer_window_update(self, sid, inc):
+        if sid == 0:
+            self.cw = self.cw + inc
+            self.events.append(_ev.WindowUpdated(stream_id=0, delta=inc))
+        elif sid in self.sw:
+            self.sw[sid] = self.sw[sid] + inc
+            self.events.append(_ev.WindowUpdated(stream_id=sid, delta=inc))
+        # WINDOW_UPDATE for a closed stream: h2 emits no stream event
+
+    def peer_settings_iws(self, new):
+        delta = new - self.iws
+        for sid in list(self.sw):
+            self.sw[sid] = self.sw[sid] + delta
+        e = _ev.RemoteSettingsChanged()
+        e.changed_settings[_IWS] = _hs.ChangedSetting(_IWS, self.iws, new)
+        self.iws = new
+        self.events.append(e)
+
+    def peer_settings_mfs(self, new):
+        e = _ev.RemoteSettingsChanged()
+        e.changed_settings[_MFS] = _hs.ChangedSetting(_MFS, self.mfs, new)
+        self.mfs = new
+        self.events.append(e)
+
+
+class _Call:
+    def __init__(self, f, a, k):
+        self.f, self.a, self.k = f, a, k
+        self.cancelled = False
+
+    def cancel(self):
+        self.cancelled = True
+
+    def active(self):
+        return not self.cancelled
+
+
+class _Reactor:
+    def __init__(self):
+        self.calls = []
+
+    def callLater(self, delay, f, *a, **k):
+        c = _Call(f, a, k)
+        self.calls.append(c)
+        return c
+
+    def turn(self):
+        """run the oldest pending delayed call; False if there is none"""
+        while self.calls:
+            c = self.calls.pop(0)
+            if not c.cancelled:
+                c.f(*c.a, **c.k)
+                return True
+        return False
+
+
+class _Addr:
+    host = "peer"
+    port = 1
+
+
+class _Transport:
+    def __init__(self):
+        self.writes = 0
+        self.lost = False
+        self.aborted = False
+
+    def write(self, data):
+        self.writes += 1
+
+    def writeSequence(self, seq):
+        self.writes += 1
+
+    def loseConnection(self):
+        self.lost = True
+
+    def abortConnection(self):
+        self.aborted = True
+
+    def getPeer(self):
+        return _Addr()
+
+    getHost = getPeer
+
+
+class _Req:
+    """stand-in for twisted.web.http.Request as built by H2Stream.__init__ (requestFactory(stream, queued=False))"""
+
+    def __init__(self, channel, queued=False):
+        self.channel = channel
+        self.requestHeaders = Headers()
+        self.lost = 0
+
+    def gotLength(self, n):
+        pass
+
+    def parseCookies(self):
+        pass
+
+    def handleContentChunk(self, data):
+        pass
+
+    def requestReceived(self, command, path, version):
+        pass
+
+    def connectionLost(self, reason):
+        self.lost += 1
+
+
+class _Producer:
+    """a passive IPushProducer: records what it is told"""
+
+    def __init__(self):
+        self.events = []
+
+    def pauseProducing(self):
+        self.events.append("pause")
+
+    def resumeProducing(self):
+        self.events.append("resume")
+
+    def stopProducing(self):
+        self.events.append("stop")
+
+
+# ---- the world ------------------------------------------------------------------------------------------------
+
+class _World:
+    def __init__(self, ns, cw, iws, mfs):
+        rope.reset()
+        self.ns = ns
+        self.r = _Reactor()
+        c = _h2mod.H2Connection(reactor=self.r)
+        c.requestFactory = _Req
+        self.fc = _FakeH2(cw, iws, mfs)
+        c.conn = self.fc
+        self.t = _Transport()
+        c.makeConnection(self.t)
+        self.c = c
+        self.tree = c.priority
+        # requests arrive through the real dataReceived -> _requestReceived
+        for i in range(ns):
+            self.fc.peer_request(_SIDS[i])
+        c.dataReceived(b"\x00")
+        self.streams = [c.streams[_SIDS[i]] for i in range(ns)]
+        self.cleaned = [0] * ns
+        for i in range(ns):
+            c._streamCleanupCallbacks[_SIDS[i]].addCallback(self._cleanup, i)
+            self.streams[i].writeHeaders(b"HTTP/2", b"200", b"OK", Headers())
+        self.S0 = [0] * ns          # bytes of stream i sent before the observed part of the run
+        self.W = [0] * ns           # bytes of stream i written by the application so far
+        self.done = [False] * ns    # requestDone called
+        self.aborted = [False] * ns
+        self.prod = [None] * ns
+
+    def _cleanup(self, res, i):
+        self.cleaned[i] += 1
+        return res
+
+    def live(self, i):
+        return _SIDS[i] in self.c.streams
+
+    # -- application operations
+    def write(self, i, n):
+        self.streams[i].write(rope.span(i * _BASE + self.W[i], i * _BASE + self.W[i] + n))
+        self.W[i] = self.W[i] + n
+
+    def write_seq(self, i, n1, n2):
+        a = i * _BASE + self.W[i]
+        self.streams[i].writeSequence([rope.span(a, a + n1), rope.span(a + n1, a + n1 + n2)])
+        self.W[i] = self.W[i] + n1 + n2
+
+    def finish(self, i):
+        self.done[i] = True
+        self.streams[i].requestDone(self.streams[i]._request)
+
+    def abort(self, i):
+        self.aborted[i] = True
+        self.streams[i].abortConnection()
+
+    def register(self, i):
+        p = _Producer()
+        self.prod[i] = p
+        self.streams[i].registerProducer(p, True)
+
+    # -- peer operations (through the real dataReceived dispatch)
+    def deliver(self):
+        self.c.dataReceived(b"\x00")
+
+    def window_update(self, sid, inc):
+        self.fc.peer_window_update(sid, inc)
+        self.deliver()
+
+    def settings_iws(self, new):
+        self.fc.peer_settings_iws(new)
+        self.deliver()
+
+    def settings_mfs(self, new):
+        self.fc.peer_settings_mfs(new)
+        self.deliver()
+
+    # -- reactor
+    def turn(self, pick=None):
+        if pick is not None:
+            self.tree.script = [pick]
+        r = self.r.turn()
+        self.tree.script = []
+        return r
+
+    # -- observations
+    def loop_arms(self):
+        """how many continuations of the sending loop exist: pending delayed calls + the idle Deferred + a
+        callback waiting behind the transport; must be exactly 1 while the connection is alive"""
+        c = self.c
+        n = 0
+        for call in self.r.calls:
+            if not call.cancelled and call.f == c._sendPrioritisedData:
+                n += 1
+        if c._sendingDeferred is not None:
+            n += 1
+        if c._consumerBlocked is not None:
+            for (cb, eb) in c._consumerBlocked.callbacks:
+                if cb[0] == c._sendPrioritisedData:
+                    n += 1
+        return n
+
+    def waiting_behind_transport(self):
+        c = self.c
+        if c._consumerBlocked is not None:
+            for (cb, eb) in c._consumerBlocked.callbacks:
+                if cb[0] == c._sendPrioritisedData:
+                    return True
+        return False
+
+    def sent_len(self, i):
+        n = 0
+        for d in self.fc.sent[_SIDS[i]]:
+            n = n + len(d)
+        return n
+
+    def queue_parts(self, i):
+        """(data chunks, number of sentinels, sentinel is last) of the outbound queue of live stream i"""
+        q = self.c._outboundStreamQueues[_SIDS[i]]
+        chunks = []
+        nsent = 0
+        last = True
+        for x in q:
+            if x is _SENT:
+                nsent += 1
+            else:
+                if nsent:
+                    last = False
+                chunks.append(x)
+        return chunks, nsent, last
+
+    def conserved(self):
+        """for every stream: DATA payloads sent so far, concatenated, are exactly body[S0 : S0 + sent]; for a live
+        stream the queued chunks are exactly body[S0 + sent : W] (so sent + queued == written, in order, nothing
+        duplicated or dropped) and the end marker is queued iff requestDone was called, once, last.  One formula."""
+        ok = True
+        for i in range(self.ns):
+            base = i * _BASE + self.S0[i]
+            ls = self.sent_len(i)
+            ok = rope.band(ok, rope.is_span(rope.concat(self.fc.sent[_SIDS[i]]), base, base + ls))
+            ok = rope.band(ok, base + ls <= i * _BASE + self.W[i])
+            if self.live(i):
+                chunks, nsent, last = self.queue_parts(i)
+                if nsent != (1 if self.done[i] else 0) or not last:
+                    return False
+                ok = rope.band(ok, rope.is_span(rope.concat(chunks), base + ls, i * _BASE + self.W[i]))
+                if _SIDS[i] not in self.fc.sw:
+                    return False            # twisted keeps state for a stream that h2 has closed
+            else:
+                if self.cleaned[i] != 1:
+                    return False
+                if not self.aborted[i]:
+                    # cleaned up without abort: only after requestDone, with the whole body sent, END_STREAM once
+                    if not self.done[i]:
+                        return False
+                    ok = rope.band(ok, base + ls == i * _BASE + self.W[i])
+        return ok
+
+    def end_marks_ok(self):
+        """END_STREAM / RST_STREAM: at most one per stream, END_STREAM only after requestDone and never followed
+        by DATA on that stream; RST only after abort"""
+        for i in range(self.ns):
+            sid = _SIDS[i]
+            ends = 0
+            for (k, s) in self.fc.log:
+                if s != sid:
+                    continue
+                if k == "end":
+                    ends += 1
+                    if not self.done[i]:
+                        return False
+                elif k == "rst":
+                    ends += 1
+                    if not self.aborted[i]:
+                        return False
+                elif ends:
+                    return False        # DATA or HEADERS after the stream was closed
+            if ends > 1:
+                return False
+            if ends == 1 and self.live(i):
+                return False
+            if ends == 0 and not self.live(i):
+                return False
+        return True
+
+    def invariant(self):
+        """representation invariant of the sending machinery (J1-J4), see ASSUMPTIONS"""
+        c = self.c
+        if c._sendingDeferred is not None and self.tree.any_active():
+            return False                                    # J1: idle loop, yet a stream is schedulable
+        for i in range(self.ns):
+            if not self.live(i):
+                continue
+            sid = _SIDS[i]
+            q = c._outboundStreamQueues[sid]
+            act = self.tree.is_active(sid)
+            if act and len(q) == 0:
+                return False                                # J3: scheduled stream has something queued
+            if self.done[i] and not act:
+                return False                                # J2b: a finished stream is schedulable
+            if len(q) > 0 and not act:
+                if self.fc.local_flow_control_window(sid) > 0:
+                    return False                            # J2a: data + open window => schedulable
+            st = self.streams[i]
+            if st.producer is not None and not st._producerProducing:
+                if c.remainingOutboundWindow(sid) > 0:
+                    return False                            # J4: paused producer only while no room
+        return True
+
+    def healthy(self):
+        if self.fc.errors:
+            return False
+        if self.loop_arms() != 1:
+            return False
+        if not self.end_marks_ok():
+            return False
+        if not self.conserved():
+            return False
+        return self.invariant()
+
+
+# ---- arbitrary pre-state (constructed directly on a connection whose streams came through _requestReceived) ---
+
+def _mk_state(ns, cw, mfs, per, loop, cb):
+    """per[i] = (sw, s0, nq, q1, q2, done, act, prod); loop: 0 = a turn of the sending loop is scheduled,
+    1 = idle (waiting on _sendingDeferred), 2 = waiting behind the paused transport; cb: transport paused"""
+    w = _World(ns, cw, 0, mfs)
+    c = w.c
+    for i in range(ns):
+        (sw, s0, nq, q1, q2, done, act, prod) = per[i]
+        sid = _SIDS[i]
+        w.fc.sw[sid] = sw
+        w.S0[i] = s0
+        pos = i * _BASE + s0
+        q = c._outboundStreamQueues[sid]
+        if nq >= 1:
+            q.append(rope.span(pos, pos + q1))
+            pos = pos + q1
+        if nq >= 2:
+            q.append(rope.span(pos, pos + q2))
+            pos = pos + q2
+        w.W[i] = pos - i * _BASE
+        if done:
+            q.append(_SENT)
+            w.done[i] = True
+        if act:
+            w.tree.unblock(sid)
+        if prod != 0:
+            w.register(i)
+            if prod == 2:
+                w.streams[i]._producerProducing = False
+                w.prod[i].events.append("pause")
+    if cb or loop == 2:
+        c.pauseProducing()
+    if loop == 1:
+        del w.r.calls[:]
+        d = Deferred()
+        d.addCallback(c._sendPrioritisedData)
+        c._sendingDeferred = d
+    elif loop == 2:
+        del w.r.calls[:]
+        c._consumerBlocked.addCallback(c._sendPrioritisedData)
+    return w
+
+
+def _per(ns, a, b2, c3):
+    return [a, b2, c3][:ns]
+
+
+def _prod_events_ok(w):
+    """pause / resume strictly alternate, starting with pause (registered producers start out producing)"""
+    for i in range(w.ns):
+        p = w.prod[i]
+        if p is None:
+            continue
+        expect = "pause"
+        for e in p.events:
+            if e != expect:
+                return False
+            expect = "resume" if expect == "pause" else "pause"
+    return True
+
+
+def _prod_state(w, i):
+    st = w.streams[i]
+    if st.producer is None:
+        return 0
+    return 1 if st._producerProducing else 2
+
+
+_STATE_PRE = """
+    pre: 1 <= ns <= B['ns'] and 0 <= cw <= B['cap'] and 1 <= mfs <= B['cap']
+    pre: -B['cap'] <= sw0 <= B['cap'] and 0 <= s00 <= B['cap'] and 0 <= nq0 <= 2 and 0 <= q10 <= B['cap'] and 0 <= q20 <= B['cap'] and 0 <= prod0 <= 2
+    pre: -B['cap'] <= sw1 <= B['cap'] and 0 <= s01 <= B['cap'] and 0 <= nq1 <= 2 and 0 <= q11 <= B['cap'] and 0 <= q21 <= B['cap'] and 0 <= prod1 <= 2
+    pre: -B['cap'] <= sw2 <= B['cap'] and 0 <= s02 <= B['cap'] and 0 <= nq2 <= 2 and 0 <= q12 <= B['cap'] and 0 <= q22 <= B['cap'] and 0 <= prod2 <= 2
+    pre: (nq0 >= 1 or q10 == 0) and (nq0 >= 2 or q20 == 0) and (nq1 >= 1 or q11 == 0) and (nq1 >= 2 or q21 == 0) and (nq2 >= 1 or q12 == 0) and (nq2 >= 2 or q22 == 0)
+    pre: ns >= 2 or (sw1 == 0 and s01 == 0 and nq1 == 0 and not done1 and not act1 and prod1 == 0)
+    pre: ns >= 3 or (sw2 == 0 and s02 == 0 and nq2 == 0 and not done2 and not act2 and prod2 == 0)
+"""
+
+
+def step_turn(ns: int, cw: int, mfs: int, cb: bool, pick: int,
+              sw0: int, s00: int, nq0: int, q10: int, q20: int, done0: bool, act0: bool, prod0: int,
+              sw1: int, s01: int, nq1: int, q11: int, q21: int, done1: bool, act1: bool, prod1: int,
+              sw2: int, s02: int, nq2: int, q12: int, q22: int, done2: bool, act2: bool, prod2: int) -> bool:
+    """
+    pre: 1 <= ns <= B['ns'] and 0 <= cw <= B['cap'] and 1 <= mfs <= B['cap']
+    pre: -B['cap'] <= sw0 <= B['cap'] and 0 <= s00 <= B['cap'] and 0 <= nq0 <= 2 and 0 <= q10 <= B['cap'] and 0 <= q20 <= B['cap'] and 0 <= prod0 <= 2
+    pre: -B['cap'] <= sw1 <= B['cap'] and 0 <= s01 <= B['cap'] and 0 <= nq1 <= 2 and 0 <= q11 <= B['cap'] and 0 <= q21 <= B['cap'] and 0 <= prod1 <= 2
+    pre: -B['cap'] <= sw2 <= B['cap'] and 0 <= s02 <= B['cap'] and 0 <= nq2 <= 2 and 0 <= q12 <= B['cap'] and 0 <= q22 <= B['cap'] and 0 <= prod2 <= 2
+    pre: (nq0 >= 1 or q10 == 0) and (nq0 >= 2 or q20 == 0) and (nq1 >= 1 or q11 == 0) and (nq1 >= 2 or q21 == 0) and (nq2 >= 1 or q12 == 0) and (nq2 >= 2 or q22 == 0)
+    pre: ns >= 2 or (sw1 == 0 and s01 == 0 and nq1 == 0 and not done1 and not act1 and prod1 == 0)
+    pre: ns >= 3 or (sw2 == 0 and s02 == 0 and nq2 == 0 and not done2 and not act2 and prod2 == 0)
+    pre: 0 <= pick <= 2
+    post: _
+    """
+    per = _per(ns, (sw0, s00, nq0, q10, q20, done0, act0, prod0), (sw1, s01, nq1, q11, q21, done1, act1, prod1),
+               (sw2, s02, nq2, q12, q22, done2, act2, prod2))
+    w = _mk_state(ns, cw, mfs, per, 0, cb)
+    if not w.invariant():
+        return True                 # not a state of the invariant: nothing claimed
+    acts = [i for i in range(ns) if w.tree.is_active(_SIDS[i])]
+    before = [w.sent_len(i) for i in range(ns)]
+    nlog = len(w.fc.log)
+    w.turn(pick)
+    cover()
+    if not w.healthy() or not _prod_events_ok(w):
+        return False
+    c = w.c
+    nframes = len(w.fc.log) - nlog
+    if not acts:
+        # nothing schedulable: the loop goes to sleep on _sendingDeferred, nothing is sent
+        return nframes == 0 and c._sendingDeferred is not None
+    if cb:
+        return nframes == 0 and w.waiting_behind_transport()
+    p = acts[-1]
+    for k in range(len(acts) - 1):
+        if pick == k:
+            p = acts[k]
+            break
+    (sw, s0, nq, q1, q2, done, act, prod) = per[p]
+    for i in range(ns):
+        if i != p and w.sent_len(i) != before[i]:
+            return False
+    if len(w.r.calls) != 1:
+        return False                # the next turn is scheduled
+    if nq == 0:
+        # only the end marker is queued: END_STREAM, all state for the stream released
+        cover("ended")
+        return nframes == 1 and w.fc.log[-1] == ("end", _SIDS[p]) and not w.live(p)
+    # exactly one DATA frame carrying as much of the head chunk as window and frame size allow (none if 0)
+    want = rope.imax(0, rope.imin(q1, rope.imin(mfs, rope.imin(cw, sw))))
+    got = w.sent_len(p) - before[p]
+    if got != want:
+        return False
+    if want > 0:
+        cover("sent")
+        if nframes != 1:
+            return False
+    elif nframes != 0:
+        return False
+    # back-pressure: the stream just served has no room left => its producer is not left producing
+    if w.live(p) and _prod_state(w, p) == 1 and c.remainingOutboundWindow(_SIDS[p]) <= 0:
+        return False
+    return True
+
+
+def step_event(ns: int, cw: int, mfs: int, cb: bool, loop: int, ev: int, k: int, x: int,
+               sw0: int, s00: int, nq0: int, q10: int, q20: int, done0: bool, act0: bool, prod0: int,
+               sw1: int, s01: int, nq1: int, q11: int, q21: int, done1: bool, act1: bool, prod1: int,
+               sw2: int, s02: int, nq2: int, q12: int, q22: int, done2: bool, act2: bool, prod2: int) -> bool:
+    """
+    pre: 1 <= ns <= B['ns'] and 0 <= cw <= B['cap'] and 1 <= mfs <= B['cap']
+    pre: -B['cap'] <= sw0 <= B['cap'] and 0 <= s00 <= B['cap'] and 0 <= nq0 <= 2 and 0 <= q10 <= B['cap'] and 0 <= q20 <= B['cap'] and 0 <= prod0 <= 2
+    pre: -B['cap'] <= sw1 <= B['cap'] and 0 <= s01 <= B['cap'] and 0 <= nq1 <= 2 and 0 <= q11 <= B['cap'] and 0 <= q21 <= B['cap'] and 0 <= prod1 <= 2
+    pre: -B['cap'] <= sw2 <= B['cap'] and 0 <= s02 <= B['cap'] and 0 <= nq2 <= 2 and 0 <= q12 <= B['cap'] and 0 <= q22 <= B['cap'] and 0 <= prod2 <= 2
+    pre: (nq0 >= 1 or q10 == 0) and (nq0 >= 2 or q20 == 0) and (nq1 >= 1 or q11 == 0) and (nq1 >= 2 or q21 == 0) and (nq2 >= 1 or q12 == 0) and (nq2 >= 2 or q22 == 0)
+    pre: ns >= 2 or (sw1 == 0 and s01 == 0 and nq1 == 0 and not done1 and not act1 and prod1 == 0)
+    pre: ns >= 3 or (sw2 == 0 and s02 == 0 and nq2 == 0 and not done2 and not act2 and prod2 == 0)
+    pre: 0 <= loop <= 2 and (cb or loop != 2) and 0 <= ev <= 3 and 0 <= k < ns
+    pre: (ev <= 1 and 1 <= x <= B['cap']) or (ev == 2 and -B['cap'] <= x <= B['cap']) or (ev == 3 and 1 <= x <= B['cap'])
+    post: _
+    """
+    per = _per(ns, (sw0, s00, nq0, q10, q20, done0, act0, prod0), (sw1, s01, nq1, q11, q21, done1, act1, prod1),
+               (sw2, s02, nq2, q12, q22, done2, act2, prod2))
+    w = _mk_state(ns, cw, mfs, per, loop, cb)
+    if not w.invariant():
+        return True
+    kk = 0
+    for j in range(ns):
+        if k == j:
+            kk = j
+    nlog = len(w.fc.log)
+    if ev == 0:
+        w.window_update(_SIDS[kk], x)       # WINDOW_UPDATE for stream kk
+    elif ev == 1:
+        w.window_update(0, x)               # WINDOW_UPDATE for the connection
+    elif ev == 2:
+        w.fc.iws = B['cap']
+        w.settings_iws(B['cap'] + x)        # SETTINGS_INITIAL_WINDOW_SIZE changed by x (either sign)
+    else:
+        w.settings_mfs(x)                   # SETTINGS_MAX_FRAME_SIZE = x
+    cover()
+    if not w.healthy() or not _prod_events_ok(w):
+        return False
+    # a peer frame by itself sends at most one frame (the woken loop runs one turn synchronously)
+    if len(w.fc.log) - nlog > 1:
+        return False
+    if loop != 1 and len(w.fc.log) != nlog:
+        return False
+    return True
+
+
+def step_app(ns: int, cw: int, mfs: int, cb: bool, loop: int, op: int, k: int, x: int, y: int,
+             sw0: int, s00: int, nq0: int, q10: int, q20: int, done0: bool, act0: bool, prod0: int,
+             sw1: int, s01: int, nq1: int, q11: int, q21: int, done1: bool, act1: bool, prod1: int,
+             sw2: int, s02: int, nq2: int, q12: int, q22: int, done2: bool, act2: bool, prod2: int) -> bool:
+    """
+    pre: 1 <= ns <= B['ns'] and 0 <= cw <= B['cap'] and 1 <= mfs <= B['cap']
+    pre: -B['cap'] <= sw0 <= B['cap'] and 0 <= s00 <= B['cap'] and 0 <= nq0 <= 2 and 0 <= q10 <= B['cap'] and 0 <= q20 <= B['cap'] and 0 <= prod0 <= 2
+    pre: -B['cap'] <= sw1 <= B['cap'] and 0 <= s01 <= B['cap'] and 0 <= nq1 <= 2 and 0 <= q11 <= B['cap'] and 0 <= q21 <= B['cap'] and 0 <= prod1 <= 2
+    pre: -B['cap'] <= sw2 <= B['cap'] and 0 <= s02 <= B['cap'] and 0 <= nq2 <= 2 and 0 <= q12 <= B['cap'] and 0 <= q22 <= B['cap'] and 0 <= prod2 <= 2
+    pre: (nq0 >= 1 or q10 == 0) and (nq0 >= 2 or q20 == 0) and (nq1 >= 1 or q11 == 0) and (nq1 >= 2 or q21 == 0) and (nq2 >= 1 or q12 == 0) and (nq2 >= 2 or q22 == 0)
+    pre: ns >= 2 or (sw1 == 0 and s01 == 0 and nq1 == 0 and not done1 and not act1 and prod1 == 0)
+    pre: ns >= 3 or (sw2 == 0 and s02 == 0 and nq2 == 0 and not done2 and not act2 and prod2 == 0)
+    pre: 0 <= loop <= 2 and (cb or loop != 2) and 0 <= op <= 6 and 0 <= k < ns
+    pre: 0 <= x <= B['cap'] and 0 <= y <= B['cap']
+    pre: not (op == 5 and cb)
+    post: _
+    """
+    per = _per(ns, (sw0, s00, nq0, q10, q20, done0, act0, prod0), (sw1, s01, nq1, q11, q21, done1, act1, prod1),
+               (sw2, s02, nq2, q12, q22, done2, act2, prod2))
+    w = _mk_state(ns, cw, mfs, per, loop, cb)
+    if not w.invariant():
+        return True
+    kk = 0
+    for j in range(ns):
+        if k == j:
+            kk = j
+    if op <= 2 and w.done[kk]:
+        return True                 # the application does not write / finish after requestDone
+    if op == 4 and per[kk][7] != 0:
+        return True                 # one producer at a time
+    c = w.c
+    nlog = len(w.fc.log)
+    if op == 0:
+        w.write(kk, x)
+    elif op == 1:
+        w.write_seq(kk, x, y)
+    elif op == 2:
+        w.finish(kk)
+    elif op == 3:
+        w.abort(kk)
+    elif op == 4:
+        w.register(kk)
+    elif op == 5:
+        c.pauseProducing()          # the transport's buffer is full
+    else:
+        c.resumeProducing()         # the transport's buffer drained
+    cover()
+    if not w.healthy() or not _prod_events_ok(w):
+        return False
+    if op <= 1 and w.live(kk) and _prod_state(w, kk) == 1 and c.remainingOutboundWindow(_SIDS[kk]) <= 0:
+        return False                # wrote past the window: the producer must have been paused
+    if op == 3:
+        if w.live(kk) or w.fc.log[-1] != ("rst", _SIDS[kk]):
+            return False
+    elif len(w.fc.log) - nlog > 1:
+        return False
+    return True
+
+
+def _nq_shards(tier):
+    ns = BOUNDS[tier]["ns"]
+    out = []
+    for n in range(1, ns + 1):
+        out.append(("ns == %d" % n,))
+    return out
+
+
+HARNESSES = [
+    H(step_turn, shards=_nq_shards, timeout={"quick": 60, "thorough": 600}, labels=("end", "ended", "sent")),
+    H(step_event, shards=_nq_shards, timeout={"quick": 60, "thorough": 600}),
+    H(step_app, shards=_nq_shards, timeout={"quick": 60, "thorough": 600}),
+]
